@@ -821,6 +821,65 @@ func runFD05(p *Prog, r *RuleRun) {
 	if !found {
 		r.Fail(funcDisplay(cl)+":copy-loop", p.Position(cl.Pos()), "no counted loop feeding GetLog found in CopyLogs")
 	}
+	// the loop is reached for every non-empty source: the only early success return is "last index is 0"
+	indexOf := func(v ssa.Value, which string) bool {
+		ex, ok := v.(*ssa.Extract)
+		if !ok || ex.Index != 0 {
+			return false
+		}
+		c, ok := ex.Tuple.(*ssa.Call)
+		return ok && eventName(c) == "raft.LogStore."+which
+	}
+	spec := &fdSpec{MaxVisits: 1,
+		Inline: func(callee *ssa.Function) bool { return false },
+		Symbol: func(v ssa.Value) string {
+			switch {
+			case indexOf(v, "FirstIndex"):
+				return "first"
+			case indexOf(v, "LastIndex"):
+				return "last"
+			}
+			return ""
+		},
+		Effect: func(ins ssa.Instruction, eval func(ssa.Value) fdVal) (string, bool) {
+			if ci, ok := ins.(ssa.CallInstruction); ok && eventName(ci) == "raft.LogStore.GetLog" {
+				return "READ", true
+			}
+			return "", false
+		},
+		Return: func(ret *ssa.Return, res []ssa.Value, eval func(ssa.Value) fdVal) string {
+			if c, ok := res[len(res)-1].(*ssa.Const); ok && c.IsNil() {
+				return "ret-nil"
+			}
+			return "ret-err"
+		}}
+	var bad []string
+	nw := enumAssignments([]string{"first", "last"}, 0, 3, func(a map[string]int64) bool { return a["first"] <= a["last"] && (a["last"] == 0 || a["first"] > 0) }, func(a map[string]int64) {
+		read, early := false, false
+		for _, t := range fdRun(cl, spec, a) {
+			switch {
+			case strings.HasSuffix(t, "READ"):
+				read = true
+			case strings.HasSuffix(t, "ret-nil"):
+				early = true
+			}
+		}
+		switch {
+		case a["last"] == 0 && read:
+			bad = append(bad, fmtAssign(a)+": an empty source still reads an entry")
+		case a["last"] == 0 && !early:
+			bad = append(bad, fmtAssign(a)+": an empty source does not return nil")
+		case a["last"] > 0 && early:
+			bad = append(bad, fmtAssign(a)+": a non-empty source returns nil without reading anything")
+		case a["last"] > 0 && !read:
+			bad = append(bad, fmtAssign(a)+": a non-empty source never reaches the copy loop")
+		}
+	})
+	if len(bad) > 4 {
+		bad = bad[:4]
+	}
+	r.Check(len(bad) == 0 && nw > 0, funcDisplay(cl)+":empty-source", p.Position(cl.Pos()), "CopyLogs returns early exactly for an empty source (last index 0); every non-empty source, a single entry included, reaches the copy loop",
+		"CopyLogs's early return does not coincide with the empty source: "+strings.Join(bad, " | ")+" (a log holding one entry - first == last - is reported as copied although nothing was)")
 }
 
 // liveBlocks returns the blocks reachable from the entry when Ifs on constant conditions take only their live edge.
